@@ -1,8 +1,9 @@
 // C11 (word automata): ExplicitFiniteAut objects are values.  Same scheme as values.cc: NH heap-allocated handles, a
 // symbolic history of STEPS calls chosen from the families enabled per step by PLAN (1 copies/lifetime: copy-assign,
-// self-assign, copy-construct, move-construct, move-assign, assignment back into a moved-from object, destroy; 2 mutations: AddTransition, SetStateFinal,
-// SetStateStart; 4 RemoveUnreachableStates / RemoveUselessStates / Reverse stored into any handle; 8 UnionDisjointStates stored into a handle and Union
-// with translation maps kept in a separate result object), a value-semantics shadow per handle, every handle read back
+// self-assign, copy-construct, move-construct, move-assign, assignment back into a moved-from object, destroy;
+// 2 mutations: AddTransition, SetStateFinal, SetStateStart; 4 RemoveUnreachableStates stored into any handle;
+// 8 UnionDisjointStates stored into a handle and Union with translation maps kept in a separate result object;
+// 16 RemoveUselessStates / Reverse stored into any handle), a value-semantics shadow per handle, every handle read back
 // after every step.  The facade has no getters for transitions and final states, so a handle is read through the public
 // DumpToString(serializer, stateDict) with a serializer that decodes the AutDescription it is given, and through
 // GetStartStates / GetStartSymbols (for every state).
@@ -83,7 +84,7 @@ static Val withoutUseless(const Val& v)
 static Val reversed(const Val& v)
 {
   Val r = v; r.fin = v.start; r.start = v.fin;
-  for (unsigned i = 0; i < NT; ++i) { Tr x = tr(i); r.t[i] = v.t[(x.r * NSYM + x.a) * NS + x.l]; }
+  for (unsigned l = 0; l < NS; ++l) for (unsigned a = 0; a < NSYM; ++a) for (unsigned q = 0; q < NS; ++q) r.t[(l * NSYM + a) * NS + q] = v.t[(q * NSYM + a) * NS + l];
   return r;
 }
 
@@ -96,7 +97,8 @@ template <class F> static unsigned enumerate(unsigned fam, F f)
     for (unsigned i = 0; i < NH; ++i) f(n++, DESTROY, i, i, 0u);
   }
   if (fam & 2) for (unsigned i = 0; i < NH; ++i) { for (unsigned x = 0; x < NT; ++x) f(n++, ADD, i, i, x); for (unsigned s = 0; s < NS; ++s) f(n++, FINAL, i, i, s); for (unsigned x = 0; x < NST; ++x) f(n++, START, i, i, x); }
-  if (fam & 4) for (unsigned i = 0; i < NH; ++i) for (unsigned j = 0; j < NH; ++j) { f(n++, UNREACH, i, j, 0u); f(n++, USELESS, i, j, 0u); f(n++, REVERSE, i, j, 0u); }
+  if (fam & 4) for (unsigned i = 0; i < NH; ++i) for (unsigned j = 0; j < NH; ++j) f(n++, UNREACH, i, j, 0u);
+  if (fam & 16) for (unsigned i = 0; i < NH; ++i) for (unsigned j = 0; j < NH; ++j) { f(n++, USELESS, i, j, 0u); f(n++, REVERSE, i, j, 0u); }
   if (fam & 8) for (unsigned i = 0; i < NH; ++i) for (unsigned j = 0; j < NH; ++j) { if (i != j) f(n++, UNIOND, i, j, 0u); f(n++, UNION, i, j, 0u); }
   return n;
 }
@@ -269,7 +271,11 @@ extern "C" void harness(void)
     compareAll(100 * (k + 2));
   }
   // ---- an operation repeated after all that activity depends on the value only
-  for (unsigned i = 0; i < NH; ++i) { Aut t = h[i]->RemoveUnreachableStates(); same(t, withoutUnreachable(val[i]), 80); Aut u = h[i]->RemoveUselessStates(); same(u, withoutUseless(val[i]), 85); same(*h[i], val[i], 90); }
+  for (unsigned i = 0; i < NH; ++i) { Aut t = h[i]->RemoveUnreachableStates(); same(t, withoutUnreachable(val[i]), 80); 
+#ifdef FINAL_USELESS
+    { Aut u = h[i]->RemoveUselessStates(); same(u, withoutUseless(val[i]), 85); }
+#endif
+    same(*h[i], val[i], 90); }
 #ifdef VS_OBSERVE
   for (unsigned i = 0; i < NH; ++i) { Val g; bool ok = readVal(*h[i], g); unsigned long m = 0; for (unsigned x = 0; x < NT; ++x) m |= (unsigned long)g.t[x] << x; unsigned long s = 0; for (unsigned x = 0; x < NST; ++x) s |= (unsigned long)g.st[x] << x;
     vs_observe(ok); vs_observe(m); vs_observe(s); vs_observe(g.fin); vs_observe(g.start); }
